@@ -272,6 +272,70 @@ theorem C09_diff (r1 r2 : IntTy) (h1 : r1 ∈ IntTy.all) (h2 : r2 ∈ IntTy.all)
   · rw [← hx, ← hy, Rat.intCast_sub]
     grind
 
+/-- **C09, `<=>` on points.**  Under the same premise, with both counts in the range of the common rep, `p1 <=> p2`
+orders the points by absolute position and agrees with each of the six comparison operators (since the fix of
+finding F11/F17 it converts through the common rep like they do). -/
+theorem C09_spaceship (r1 r2 : IntTy) (h1 : r1 ∈ IntTy.all) (h2 : r2 ∈ IntTy.all) (hs : r1.signed = r2.signed)
+    (u1 u2 : PtUnit) (v1 v2 x y : Int) (cs co : Rat) (hcs : 0 < cs)
+    (hp : (commonPointPair r1 r2 u1 u2 v1 v2).val = .ok (x, y))
+    (hx : (x : Rat) * cs + co = position u1 v1) (hy : (y : Rat) * cs + co = position u2 v2)
+    (hxr : (IntTy.common r1 r2).inRange x) (hyr : (IntTy.common r1 r2).inRange y) :
+    (spaceshipPoints r1 r2 u1 u2 v1 v2).val = .ok (compare x y) ∧
+    (compare x y = .lt ↔ position u1 v1 < position u2 v2) ∧
+    (compare x y = .eq ↔ position u1 v1 = position u2 v2) ∧
+    (compare x y = .gt ↔ position u2 v2 < position u1 v1) ∧
+    ∀ op, (cmpPoints op r1 r2 u1 u2 v1 v2).val = .ok (op.ofOrdering (compare x y)) := by
+  obtain ⟨hc, _⟩ := common_facts r1 h1 r2 h2 hs
+  obtain ⟨hpp, hplo, hphi, _, _, _, _⟩ := uac_facts _ hc _ hc rfl
+  have w1 := wrap_of_inRange _ hpp _ (inRange_mono hplo hphi hxr)
+  have w2 := wrap_of_inRange _ hpp _ (inRange_mono hplo hphi hyr)
+  refine ⟨?_, ?_, ?_, ?_, ?_⟩
+  · unfold spaceshipPoints
+    simp only []
+    rw [hp]
+    simp only [w1, w2]
+  · have h := rel_shift .lt _ _ cs co x y hcs hx hy
+    simp only [CmpOp.eval, CmpOp.rel, decide_eq_true_eq] at h
+    exact Int.compare_eq_lt.trans h
+  · have h := rel_shift .eq _ _ cs co x y hcs hx hy
+    simp only [CmpOp.eval, CmpOp.rel, decide_eq_true_eq] at h
+    exact Int.compare_eq_eq.trans h
+  · have h := rel_shift .gt _ _ cs co x y hcs hx hy
+    simp only [CmpOp.eval, CmpOp.rel, decide_eq_true_eq] at h
+    exact Int.compare_eq_gt.trans h
+  · intro op
+    unfold cmpPoints
+    simp only []
+    rw [hp]
+    simp only []
+    congr 1
+    rcases Int.lt_trichotomy x y with hlt | heq | hgt
+    · have hcmp : compare x y = .lt := Int.compare_eq_lt.2 hlt
+      rw [hcmp]
+      have n1 : ¬ x = y := by omega
+      have n2 : ¬ x > y := by omega
+      have n3 : x ≤ y := by omega
+      have n4 : ¬ x ≥ y := by omega
+      cases op <;> simp [CmpOp.ofOrdering, CmpOp.eval, hlt, n1, n2, n3, n4]
+    · subst heq
+      have hcmp : compare x x = .eq := Int.compare_eq_eq.2 rfl
+      rw [hcmp]
+      cases op <;> simp [CmpOp.ofOrdering, CmpOp.eval]
+    · have hcmp : compare x y = .gt := Int.compare_eq_gt.2 hgt
+      rw [hcmp]
+      have n1 : ¬ x = y := by omega
+      have n2 : ¬ x < y := by omega
+      have n3 : ¬ x ≤ y := by omega
+      have n4 : x ≥ y := by omega
+      cases op <;> simp [CmpOp.ofOrdering, CmpOp.eval, hgt, n1, n2, n3, n4]
+
+/-- Regression guard for finding F11/F17 on points: int16 −7705 [1/1000, origin 0] vs int32 −13 [5/9, origin 0]:
+`<=>` is `less` like `<` (the int16 operand used to be converted in int16). -/
+theorem C09_F11_fixed_spaceship :
+    (spaceshipPoints i16 i32 ⟨⟨1, 1000⟩, 0, ⟨1, 1000⟩⟩ ⟨⟨5, 9⟩, 0, ⟨1, 1800⟩⟩ (-7705) (-13)).val = .ok .lt ∧
+    (cmpPoints .lt i16 i32 ⟨⟨1, 1000⟩, 0, ⟨1, 1000⟩⟩ ⟨⟨5, 9⟩, 0, ⟨1, 1800⟩⟩ (-7705) (-13)).val = .ok true := by
+  decide
+
 /-- Non-vacuity of the premise: 20 [1, 273150·(1/1000)] vs 68 [5/9, 459670·(1/1800)] are delivered as the counts
 (340000, 340000) of the common point unit 1/9000 with the Fahrenheit-like origin: equal positions. -/
 example : (commonPointPair i32 i32 ⟨⟨1, 1⟩, 273150, ⟨1, 1000⟩⟩ ⟨⟨5, 9⟩, 459670, ⟨1, 1800⟩⟩ 20 68).val = .ok (340000, 340000) := by
